@@ -79,7 +79,13 @@ def gen_table(rng: random.Random, m=None, n=None, k=None, kind=None, scale=None)
         for j in bad:
             for c in range(F):
                 Y[j][c] = Y[j][c] * 1.7 + scale
-    return {"m": m, "n": n, "k": k, "kind": kind, "scale": scale, "Z": Z, "Y": Y}
+    tb = {"m": m, "n": n, "k": k, "kind": kind, "scale": scale, "Z": Z, "Y": Y}
+    if scale >= 100 and rng.random() < 0.12:
+        # whole numbers, integer dtype
+        tb["Z"] = [[float(round(v)) for v in row] for row in Z]
+        tb["Y"] = [[float(round(v)) for v in row] for row in Y]
+        tb["dtype"] = "int"
+    return tb
 
 
 def labels(tb: dict):
@@ -97,6 +103,9 @@ def build_table(tb: dict, perm=None) -> pymrio.IOSystem:
     if "x" in tb:
         x = np.array(tb["x"], dtype=float)
     io = pymrio.IOSystem()
+    if tb.get("dtype") == "int":
+        # a table of whole numbers stored with an integer dtype (the values are already integral)
+        Z, Y, x = Z.astype(np.int64), Y.astype(np.int64), x.astype(np.int64)
     io.Z = pd.DataFrame(Z, index=ind, columns=ind)
     io.Y = pd.DataFrame(Y, index=ind, columns=fdi)
     io.x = pd.DataFrame(x, index=ind, columns=["indout"])
@@ -159,7 +168,7 @@ def gen_model_cfg(rng: random.Random, tb: dict, shock_prone=False) -> dict:
     elif r < 0.5:
         dd = {}
         for s in secs:
-            dd[s] = rng.choice([90, 30, 5, 3, 2, 1, "inf", "Infinity"] if rng.random() < 0.5 else [90, 30, 10, 5])
+            dd[s] = rng.choice([90, 30, 5, 3, 2, 1, 0, "inf", "Infinity"] if rng.random() < 0.5 else [90, 30, 10, 5])
         cfg["inventory_dict"] = dd
         if rng.random() < 0.3:
             cfg["inf_sect"] = rng.sample(secs, 1)
@@ -182,6 +191,9 @@ def gen_model_cfg(rng: random.Random, tb: dict, shock_prone=False) -> dict:
             cfg["capital"]["shuffle"] = rng.randrange(1 << 30)
         if kind == "dataframe" and rng.random() < 0.4:
             cfg["capital"]["as_row"] = True
+        if rng.random() < 0.2:
+            # a ratio dictionary given as well: the explicit capital vector prevails
+            cfg["capital"]["also_dict"] = {s: rng.choice([4, 2.5, 10]) for s in secs}
     if shock_prone:
         cfg["main_inv_dur"] = rng.choice([2, 3, 5])
         cfg["inventory_dict"] = None
@@ -220,6 +232,8 @@ def build_model(tb: dict, cfg: dict, io=None, capital_perm=None, dict_order=None
     if cfg.get("inventory_dict") is not None:
         kw["inventory_dict"] = reorder(cfg["inventory_dict"])
     cap = cfg["capital"]
+    if cap.get("also_dict"):
+        kw["productive_capital_to_VA_dict"] = reorder(cap["also_dict"])
     if cap["kind"] == "dict":
         kw["productive_capital_to_VA_dict"] = reorder(cap["values"])
     elif cap["kind"] == "ndarray":
@@ -253,6 +267,25 @@ def build_model(tb: dict, cfg: dict, io=None, capital_perm=None, dict_order=None
 # ------------------------------------------------------------------ events
 
 
+def user_swapped(elapsed_temporal_unit, recovery_tau, init_impact_stock, speed=3):
+    """a user-supplied recovery function whose parameters are not in the order of the built-in ones:
+    linear recovery over `speed` times recovery_tau"""
+    return init_impact_stock * max(0.0, 1.0 - elapsed_temporal_unit / (speed * recovery_tau))
+
+
+def user_kwonly(elapsed_temporal_unit, *, init_impact_stock, recovery_tau):
+    """a user-supplied recovery function with keyword-only parameters: the damage halves every recovery_tau"""
+    return init_impact_stock * 0.5 ** (elapsed_temporal_unit / recovery_tau)
+
+
+USER_CURVES = {"user_swapped": user_swapped, "user_kwonly": user_kwonly}
+
+
+def curve_arg(name):
+    return USER_CURVES.get(name, name)
+
+
+
 def _key(r, s):
     return f"{r}|{s}"
 
@@ -264,12 +297,16 @@ def gen_event(rng: random.Random, tb: dict, cfg: dict, T: int, etype=None, capit
     occ = rng.randint(1, max_occ)
     dur = rng.randint(1, max(1, min(5, T - occ)))
     n_aff = rng.randint(1, min(3, len(regs) * len(secs)))
+    if rng.random() < 0.08:
+        n_aff = len(regs) * len(secs)          # an event that hits every industry
     inds = rng.sample([(r, s) for r in regs for s in secs], n_aff)
+    if rng.random() < 0.06 and T - occ >= 1:
+        dur = T - occ                          # in force up to the very end of the horizon (occurrence + duration = horizon)
     ev = {"type": etype, "occ": occ, "dur": dur, "name": None}
     if etype == "arbitrary":
         ev["impact"] = {_key(r, s): rng.choice([0.1, 0.3, 0.5, 0.9, 1.0, 0.05]) for r, s in inds}
         ev["recovery_tau"] = rng.choice([1, 2, 3, 5, 10])
-        ev["curve"] = rng.choice(["linear", "linear", "convexe", "convexe noscale", "concave"])
+        ev["curve"] = rng.choice(["linear", "linear", "convexe", "convexe noscale", "concave", "user_swapped", "user_kwonly"])
         return ev
     # (factors that are not powers of ten are documented too: currency conversion)
     emf = rng.choice([cfg["monetary_factor"], cfg["monetary_factor"], 1, 10**3, 10**6, 800, 2_500_000])
@@ -308,9 +345,10 @@ def gen_event(rng: random.Random, tb: dict, cfg: dict, T: int, etype=None, capit
             sh = [0.5, 0.3, 0.2]
         ev["reb_sectors"] = dict(zip(rs, sh))
         ev["factor"] = rng.choice([1.0, 1.0, 0.9, 0.3])
+        ev["shares_series"] = rng.random() < 0.35
     else:
         ev["recovery_tau"] = rng.choice([1, 2, 3, 5, 10, 30])
-        ev["curve"] = rng.choice(["linear", "linear", "convexe", "convexe noscale", "concave"])
+        ev["curve"] = rng.choice(["linear", "linear", "convexe", "convexe noscale", "concave", "user_swapped", "user_kwonly"])
     return ev
 
 
@@ -319,8 +357,10 @@ def _mi(dct, names):
     return pd.Series(list(dct.values()), index=idx, dtype=float)
 
 
-def build_event(ev: dict, order=None):
-    """order: optional seed to permute the entries of every labelled input of the event."""
+def build_event(ev: dict, order=None, shared=None):
+    """order: optional seed to permute the entries of every labelled input of the event.
+    shared: optional dict in which rebuilding-share Series are kept, so that events declaring the same shares are given
+    the very same Series object (as a caller reusing one Series would do)."""
 
     def reorder(dct):
         if dct is None or order is None:
@@ -333,9 +373,21 @@ def build_event(ev: dict, order=None):
     if ev["type"] == "arbitrary":
         return bev.from_series(
             imp, event_type="arbitrary", occurrence=ev["occ"], duration=ev["dur"], name=ev.get("name"),
-            recovery_tau=ev["recovery_tau"], recovery_function=ev["curve"],
+            recovery_tau=ev["recovery_tau"], recovery_function=curve_arg(ev["curve"]),
         )
     house = _mi(reorder(ev["house"]), ["region", "category"]) if ev.get("house") else None
+
+    def shares():
+        dct = reorder(ev["reb_sectors"])
+        if not ev.get("shares_series"):
+            return dct
+        key = tuple(dct.items())
+        if shared is not None and key in shared:
+            return shared[key]
+        ser = pd.Series(dct, dtype=float)
+        if shared is not None:
+            shared[key] = ser
+        return ser
     if ev.get("ctor") == "industries":
         # the same event through the scalar constructor: total impact + industry weights proportional to the impacts
         dct = reorder(ev["impact"])
@@ -346,19 +398,19 @@ def build_event(ev: dict, order=None):
                   event_monetary_factor=ev["emf"], households_impact=house)
         if ev["type"] == "rebuild":
             return bev.from_scalar_industries(total, event_type="rebuild", rebuild_tau=ev["rebuild_tau"],
-                                              rebuilding_sectors=reorder(ev["reb_sectors"]), rebuilding_factor=ev["factor"], **kw)
+                                              rebuilding_sectors=shares(), rebuilding_factor=ev["factor"], **kw)
         return bev.from_scalar_industries(total, event_type="recovery", recovery_tau=ev["recovery_tau"],
-                                          recovery_function=ev["curve"], **kw)
+                                          recovery_function=curve_arg(ev["curve"]), **kw)
     if ev["type"] == "rebuild":
         return bev.from_series(
             imp, event_type="rebuild", occurrence=ev["occ"], duration=ev["dur"], name=ev.get("name"),
             event_monetary_factor=ev["emf"], households_impact=house, rebuild_tau=ev["rebuild_tau"],
-            rebuilding_sectors=reorder(ev["reb_sectors"]), rebuilding_factor=ev["factor"],
+            rebuilding_sectors=shares(), rebuilding_factor=ev["factor"],
         )
     return bev.from_series(
         imp, event_type="recovery", occurrence=ev["occ"], duration=ev["dur"], name=ev.get("name"),
         event_monetary_factor=ev["emf"], households_impact=house, recovery_tau=ev["recovery_tau"],
-        recovery_function=ev["curve"],
+        recovery_function=curve_arg(ev["curve"]),
     )
 
 
@@ -373,6 +425,18 @@ def gen_scenario(seed: int, stream: str = "shocked", **over) -> dict:
         # very small magnitudes (a table in a huge unit): every flow below NumPy's absolute tolerance 1e-8
         over = dict(over, scale=10.0 ** rng.choice([-9, -12, -15]))
     tb = gen_table(rng, **{kk: over[kk] for kk in ("m", "n", "k", "kind", "scale") if kk in over})
+    if stream == "eventfree" and random.Random(seed ^ 0x71).random() < 0.2:
+        # one industry nine orders of magnitude smaller than the others (its output per step is below one currency unit
+        # of most monetary factors, next to ordinary industries)
+        N_ = tb["m"] * tb["n"]
+        z_ = random.Random(seed ^ 0x72).randrange(N_)
+        for j_ in range(N_):
+            tb["Z"][z_][j_] *= 1e-9
+            if j_ != z_:
+                tb["Z"][j_][z_] *= 1e-9
+        tb["Y"][z_] = [v * 1e-9 for v in tb["Y"][z_]]
+        tb["kind"] = tb["kind"] + "+tiny_industry"
+        tb.pop("dtype", None)
     shock_prone = stream in ("shortage", "crash")
     cfg = gen_model_cfg(rng, tb, shock_prone=shock_prone)
     cfg.update(over.get("cfg", {}))
@@ -380,6 +444,7 @@ def gen_scenario(seed: int, stream: str = "shocked", **over) -> dict:
     sc = {"seed": seed, "stream": stream, "table": tb, "model": cfg, "T": T, "events": [],
           "sim": {"register_stocks": False, "save_records": [], "events_mode": "one"}}
     orng = random.Random(seed ^ 0x5EED)          # options of the simulation: drawn apart, the streams above stay as they were
+    sc["sim"]["events_mode"] = orng.choice(["one", "one", "list", "ctor"])
     if orng.random() < 0.3:
         sc["sim"]["register_stocks"] = True
     if orng.random() < 0.15:
@@ -541,7 +606,8 @@ def build_sim(sc: dict, model=None, outdir=None):
     if outdir is not None:
         kw["boario_output_dir"] = outdir
     mode = sc["sim"].get("events_mode", "one")
-    evs = [build_event(e) for e in sc["events"]]
+    _shared = {}
+    evs = [build_event(e, shared=_shared) for e in sc["events"]]
     if mode == "ctor":
         sim = Simulation(model, events_list=evs, **kw)
     else:
